@@ -37,8 +37,11 @@ def run(chk: Check, replay=None):
         emitted += res.emitted.get("W", [])
     if not emitted:
         raise MachineryFailure("no writer sequences emitted")
-    if quick and len(emitted) > 12000:
-        emitted = rng.sample(emitted, 12000)
+    # every sequence is checked in the model; the replay takes a seeded sample (quick 12,000, thorough 150,000)
+    cap = 12000 if quick else 150000
+    chk.extra["A_sequences_emitted"] = len(emitted)
+    if len(emitted) > cap:
+        emitted = rng.sample(emitted, cap)
     outs = par.pmap(fmt._replay_emitted, [(i, st, False) for i, st in enumerate(emitted)], so_path=so, procs=16, chunksize=32)
     records = []
     for bl in outs:
